@@ -614,6 +614,7 @@ func formEval(c *ctx, vline string, fd formDesc, ops []setOp, dup, bad bool, cla
 		return
 	}
 	jt := fd.jidTab()
+	before, _ := descOf(d)
 
 	// --- writer paths on the form as built
 	ps := []pathRes{
@@ -771,6 +772,42 @@ func formEval(c *ctx, vline string, fd formDesc, ops []setOp, dup, bad bool, cla
 		subToks = toks
 		return b, toks, err
 	})
+	// --- history (a second call on the same value): Set, Get and Submit do not change the form
+	// as it was built or received, so a second Submit writes what the first wrote and the
+	// form itself still writes what it wrote before any of these calls
+	if sp.panicked == "" && ps[1].panicked == "" && ps[1].err == nil {
+		var sub2 []byte
+		var sub2err error
+		h := guard("TokenReader", func() ([]byte, []xml.Token, error) {
+			tr, _ := d.Submit()
+			sub2, _, sub2err = encodeTokens(tr)
+			return encodeTokens(d.TokenReader())
+		})
+		switch {
+		case h.panicked != "":
+			r.Fail("no-panic", "form.Data/second-call/"+panicClass(h.panicked), lines, "second Submit / TokenReader panicked: "+h.panicked+"\nops: "+opsEnc+"\n"+describe())
+		case h.err != nil:
+			if repr {
+				r.Fail("marshal-error", "form.Data/second-call", lines, h.err.Error()+"\n"+describe())
+			}
+		default:
+			if sp.err == nil && sub2err == nil && string(sub2) != string(sp.out) {
+				r.Fail("same-value", "form.Data/Submit/second-call", lines,
+					fmt.Sprintf("two calls of Submit on the same form write different submissions\n%q\n%q\nops: %s\n%s", sp.out, sub2, opsEnc, describe()))
+			}
+			if string(h.out) != string(ps[1].out) {
+				after, _ := descOf(d)
+				r.Fail("roundtrip", "form.Data/after-Submit/"+formDiff(before, after), lines,
+					fmt.Sprintf("the form writes something else after Set/Get/Submit than before (a reading call changed the value)\nbefore %q\nafter  %q\nops: %s\n%s", ps[1].out, h.out, opsEnc, describe()))
+			}
+			if repr && !dup {
+				if toks, err := reparse(h.out); err == nil {
+					// layer 2: the model's history (Model/Form.lean `history`) leaves the form as it was
+					r.Line(fmt.Sprintf("fhist %s %s %s", jt2, fd.enc(), opsEnc), common.EncToks(canonOrder(toks)))
+				}
+			}
+		}
+	}
 	switch {
 	case sp.panicked != "":
 		r.Fail("no-panic", "form.Data/Submit/"+panicClass(sp.panicked), lines, "Submit panicked: "+sp.panicked+"\nops: "+opsEnc+"\n"+describe())
